@@ -7,7 +7,9 @@ EXTENDS CacheView, Json
 \* dangling element and fails with the bare missing-object error, as Vec<Ref<Dictionary>> ("VR") nothing is followed and it loads
 MC_Loads == (1 :> ("P" :> "ok" @@ "D" :> "ok")) @@ (2 :> ("P" :> "err" @@ "D" :> "ok")) @@ (3 :> ("P" :> "err" @@ "D" :> "err"))
             @@ (8 :> ("P" :> "err" @@ "D" :> "ok")) @@ (9 :> ("VM" :> "err" @@ "VR" :> "ok"))
-MC_TypesOf == (1 :> {"P", "D"}) @@ (2 :> {"P", "D"}) @@ (3 :> {"P", "D"}) @@ (8 :> {"P", "D"}) @@ (9 :> {"VM", "VR"})
+            @@ (10 :> ("P" :> "ok" @@ "D" :> "ok"))
+\* object 10: a page at the bottom of the deepest chain of /Parent links the page tree supports (16 ancestors, loaded eagerly one inside the other)
+MC_TypesOf == (1 :> {"P", "D"}) @@ (2 :> {"P", "D"}) @@ (3 :> {"P", "D"}) @@ (8 :> {"P", "D"}) @@ (9 :> {"VM", "VR"}) @@ (10 :> {"P"})
 AsBuilt == {"stream_cache_key_ignores_filters"}
 Ideal(k) == Uncached(path[k].call, path[k].arg, path[k].typ)
 CaseJson == [ocOn |-> ocOn, scOn |-> scOn, dev |-> Dev,
